@@ -754,7 +754,8 @@ def pncbo(op, ifile1, ifile2, coordkeys=None, verbose=0):
             unit2 = getattr(in2var, 'units', 'unknown')
             propd['units'] = '(%s) %s (%s)' % (unit1, op, unit2)
             outval = np.ma.masked_invalid(
-                eval('in1var[...] %s in2var[...]' % op).view(np.ndarray))
+                eval('in1var[...] %s in2var[...]' % op).view(
+                    np.ma.MaskedArray))
             if outval.shape != in1var.shape:
                 raise ValueError(
                     '%s: result shape %s differs from shape %s in ifile1'
